@@ -87,21 +87,27 @@ P_SURPLUS = "len(self._processes) <= self._max_workers or self._flags.broken is 
 P_REGISTRY = "self._flags.broken is not None or forall(Int, lambda k: implies(k in self._processes, G.proc_up[self._processes[k]]))"
 S.assumption("A-progress", "eventual guarantees of the manager thread and the workers: every pending job is eventually resolved; workers that were sent a sentinel "
                            "or time out exit and are removed from the worker table; eventually every worker still in the table is running, or the pool is flagged broken")
-SHARED = ["contents(self._pending_work_items)", "contents(self._running_work_items)", "contents(self._processes)", "self._flags.broken"]
+SHARED = ["contents(self._pending_work_items)", "contents(self._running_work_items)", "contents(self._processes)", "self._flags.broken", "self._flags.shutdown"]
+# invariant of _ExecutorFlags kept by every thread (flag_as_broken sets both under the lock, nothing resets either): a broken executor is also flagged shut down
+FLAGS_INV = "implies(self._flags.broken is not None, self._flags.shutdown)"
 c = M.contract(f"{RPE}._wait_job_completion", props=["C10"])
 c.param("self", T.Ref(RPE))
+c.rely("a-broken-executor-is-flagged-shut-down", FLAGS_INV, "A-atomic")
+c.ensures("wait/a-broken-executor-is-flagged-shut-down", FLAGS_INV)
 c.ensures("wait/returns-only-when-nothing-is-pending", "len(self._pending_work_items) == 0")
 c.ensures("wait/warns-once-iff-jobs-were-pending", "log_count('warn') == ite(old(len(self._pending_work_items)) > 0, 1, 0)")
 c.raises_only("wait/no-exception")
-c.yield_at("time.sleep", SHARED, tag="A-yield")
+c.yield_at("time.sleep", SHARED, guarantee=FLAGS_INV, tag="A-yield")
 c.modifies(*SHARED)
 i = M.invariant(f"{RPE}._wait_job_completion", 0, "while self._pending_work_items:")
 i.inv("polls-only", "log_count('cq_put') == 0")
+i.inv("a-broken-executor-is-flagged-shut-down", FLAGS_INV)
 i.iter_post("one-short-sleep-per-poll", "log_count('sleep') == 1")
 i.exits_under("jobs-resolved", P_JOBS, havoc=SHARED + ["G.proc_up"], tag="A-progress")
 
 c = M.contract(f"{RPE}._resize", props=["C10", "C09", "C08"])
 c.param("self", T.Ref(RPE)).param("max_workers", T.Opt(T.Int))
+c.rely("a-broken-executor-is-flagged-shut-down", FLAGS_INV, "A-atomic")
 c.rely("registered-pids-are-live-children", "forall(Int, lambda k: implies(k in self._processes, G.pid_live[k]))", "A-pids")
 c.rely("a-started-executor-has-its-internals", "implies(self._executor_manager_thread is not None, self._processes_management_lock is not None and "
        "self._call_queue is not None and self._result_queue is not None)", "A-atomic")
@@ -116,8 +122,8 @@ ADJ = "call:ProcessPoolExecutor._adjust_process_count"
 c.ensures("resize/waits-for-jobs-then-tops-up",
           f"implies(old(self._max_workers) != {MW} and old(self._executor_manager_thread) is not None, "
           f"log_count('{WJC}') == 1 and G.n_sentinels >= old(G.n_sentinels) and "
-          # the top-up is skipped only for a pool found broken after the wait for departures (F21)
-          f"((log_count('{ADJ}') == 1 and log_before('{WJC}', '{ADJ}')) or (log_count('{ADJ}') == 0 and self._flags.broken is not None)))")
+          # the top-up is skipped only for a pool found broken or shut down after the wait for departures (F21, F30)
+          f"((log_count('{ADJ}') == 1 and log_before('{WJC}', '{ADJ}')) or (log_count('{ADJ}') == 0 and self._flags.shutdown)))")
 WK = "call:_ThreadWakeup.wakeup"
 c.ensures("resize/manager-woken-after-the-top-up-so-that-it-watches-the-new-workers",
           f"implies(old(self._max_workers) != {MW} and old(self._executor_manager_thread) is not None and self._executor_manager_thread_wakeup is not None and "
@@ -141,11 +147,14 @@ c.at_call(f"{PE}:{PPE}._adjust_process_count", "tops-up-under-the-submit-resize-
 # is spawned into it (nobody would manage the new workers; since the read end of the call queue is closed the spawn raises out of get_reusable_executor)
 c.at_call(f"{PE}:{PPE}._adjust_process_count", "no-worker-is-spawned-into-a-pool-that-broke-during-the-resize", "self._flags.broken is None", prop="C10")
 c.replay_for("no-worker-is-spawned-into-a-pool-that-broke-during-the-resize", "resize_after_break")
+# the same for an executor that another thread shut down while the resize waited (shutdown() does not take the submit/resize lock)
+c.at_call(f"{PE}:{PPE}._adjust_process_count", "no-worker-is-spawned-into-a-pool-that-was-shut-down-during-the-resize", "not self._flags.shutdown", prop="C10")
+c.replay_for("no-worker-is-spawned-into-a-pool-that-was-shut-down-during-the-resize", "shutdown_during_resize")
 c.raises("resize/none-is-rejected-before-anything-happens-and-every-error-leaves-the-lock-released", "Exception",
          post="log_tags()[-1] == 'release' and implies(is_none(max_workers), exc_is(exc, 'ValueError') and G.n_sentinels == old(G.n_sentinels) and "
               "log_count('sleep') == 0 and self._max_workers == old(self._max_workers))")
 c.raises_only("resize/only-exceptions")
-c.yield_at("time.sleep", SHARED, tag="A-yield")
+c.yield_at("time.sleep", SHARED, guarantee=FLAGS_INV, tag="A-yield")
 c.replay_for("exits-under/registered-workers-running-or-pool-broken", "resize_worker_leaves", bound="12")
 c.modifies("self._max_workers", *SHARED, "G.started", "G.pid_live", "G.proc_of_pid", "G.sem_released", "G.n_sentinels")
 i = M.invariant(f"{RPE}._resize", 0, "for _ in range(")   # the bounds are pinned by the invariant, not by the anchor
@@ -153,11 +162,13 @@ i.inv("one-sentinel-per-surplus-worker-found-alive",
       f"G.n_sentinels == at_entry(G.n_sentinels) + __i0 and __i0 <= max(0, nb_children_alive - {MW}) and self._max_workers == {MW}")
 i.iter_post("one-sentinel", "log_count('cq_put') == 1 and log_count('cq_put_full') == 0")
 i = M.invariant(f"{RPE}._resize", 1, "while (")
+i.inv("a-broken-executor-is-flagged-shut-down", FLAGS_INV)
 i.inv("size-recorded", f"self._max_workers == {MW}")
 i.inv("no-further-sentinel", "G.n_sentinels == at_entry(G.n_sentinels)")
 i.iter_post("one-short-sleep-per-poll", "log_count('sleep') == 1 and log_count('cq_put') == 0")
 i.exits_under("surplus-workers-gone", P_SURPLUS, havoc=SHARED + ["G.proc_up"], tag="A-progress")
 i = M.invariant(f"{RPE}._resize", 2, "while not self._flags.broken and not all(")
+i.inv("a-broken-executor-is-flagged-shut-down", FLAGS_INV)
 i.inv("size-recorded", f"self._max_workers == {MW}")
 i.exits_under("registered-workers-running-or-pool-broken", P_REGISTRY, havoc=SHARED + ["G.proc_up"], tag="A-progress")
 i.iter_post("one-short-sleep-per-poll", "log_count('sleep') == 1 and log_count('cq_put') == 0")
